@@ -288,6 +288,45 @@ func scenarioC07(r *Run) {
 				}
 			}
 		}
+		if live := r.LiveSessions(); len(live) > 0 && !up4 && len(r.Violations) == 0 && r.Ch.Choose(4, "create-pdr-choose") == 1 {
+			// a modification creates a further PDR pair whose uplink PDR asks the UP
+			// function to choose the TEID: that TEID is chosen like any other
+			// (non-zero, unique, reported in the response, programmed)
+			s := live[r.Ch.Choose(len(live), "cpc-which")]
+			maxID := uint16(0)
+			for _, x := range s.PDRs {
+				if x.ID > maxID {
+					maxID = x.ID
+				}
+			}
+			if maxID < 20 && s.PDRs[0].SrcIface == IfAccess && len(s.PDRs) > 1 {
+				ul, dl := s.PDRs[0].clone(), s.PDRs[1].clone()
+				f := g.Flow(false)
+				ul.ID, ul.Precedence, ul.SDF = maxID+1, 40, f
+				dl.ID, dl.Precedence, dl.SDF = maxID+2, 40, f
+				ul.TEIDChoose, ul.TEID, ul.GotTEID = true, 0, 0
+				m := &ModSpec{Tag: "cP:choose", CreatePDR: []*PDRSpec{ul, dl}}
+				mr := s.Peer.Modify(s, m)
+				r.Op("modify cp=%d: create PDR pair %d/%d, uplink F-TEID with CHOOSE -> accepted=%v, TEID in the response: %d", s.CPSEID, ul.ID, dl.ID, mr.Accepted, ul.GotTEID)
+				r.Skel(fmt.Sprintf("mod:cP:choose:%v", mr.Accepted))
+				if mr.Accepted {
+					r.Probe("pdr-with-choose-created-in-modification")
+					s.Checked = false
+					checkIDs(fmt.Sprintf("round %d, after a modification that created a PDR with CHOOSE", round))
+					if len(r.Violations) == 0 {
+						found := false
+						for _, e := range r.W.Bess.PDR {
+							if e.Valuesv[1] == s.UPSEID && e.Valuesv[0] == uint64(ul.ID) && e.Values[2] == uint64(ul.GotTEID) && e.Masks[2] == 0xFFFFFFFF {
+								found = true
+							}
+						}
+						if !found {
+							r.Violate("C07", "response-teid-not-programmed:modification", "session cp=%d PDR %d (created by a modification with CHOOSE): the response names TEID %d but the PDR entry at the datapath does not match on it", s.CPSEID, ul.ID, ul.GotTEID)
+						}
+					}
+				}
+			}
+		}
 		if live := r.LiveSessions(); len(live) > 0 && r.Ch.Choose(3, "del") == 1 {
 			s := live[r.Ch.Choose(len(live), "which")]
 			armed := up4 && r.Ch.Choose(2, "deletion-refused") == 1
